@@ -39,12 +39,51 @@ class StepBudgetExceeded(BaseException):
 # ---------------------------------------------------------------------------------------------
 
 _loaded = {}
+_code_cache = {}
+
+# dependency order: a module only imports modules above it (anything else falls back to the normal import system)
+REPO_MODULES = [
+    ("cocoasm", "cocoasm/__init__.py", True),
+    ("cocoasm.exceptions", "cocoasm/exceptions.py", False),
+    ("cocoasm.values", "cocoasm/values.py", False),
+    ("cocoasm.instruction", "cocoasm/instruction.py", False),
+    ("cocoasm.operand_type", "cocoasm/operand_type.py", False),
+    ("cocoasm.operands", "cocoasm/operands.py", False),
+    ("cocoasm.statement", "cocoasm/statement.py", False),
+    ("cocoasm.virtualfiles", "cocoasm/virtualfiles/__init__.py", True),
+    ("cocoasm.virtualfiles.source_file", "cocoasm/virtualfiles/source_file.py", False),
+    ("cocoasm.program", "cocoasm/program.py", False),
+    ("cocoasm.virtualfiles.coco_file", "cocoasm/virtualfiles/coco_file.py", False),
+    ("cocoasm.virtualfiles.virtual_file_exceptions", "cocoasm/virtualfiles/virtual_file_exceptions.py", False),
+    ("cocoasm.virtualfiles.virtual_file_container", "cocoasm/virtualfiles/virtual_file_container.py", False),
+    ("cocoasm.virtualfiles.cassette", "cocoasm/virtualfiles/cassette.py", False),
+    ("cocoasm.virtualfiles.disk", "cocoasm/virtualfiles/disk.py", False),
+    ("cocoasm.virtualfiles.binary", "cocoasm/virtualfiles/binary.py", False),
+    ("cocoasm.virtualfiles.virtual_file", "cocoasm/virtualfiles/virtual_file.py", False),
+    ("cocosim_cli_assembler", "assembler.py", False),
+    ("cocosim_cli_file_util", "file_util.py", False),
+]
 
 
-def load_repo():
-    """Import the repository's modules from $VERIF_REPO (current working tree, no bytecode)."""
-    if _loaded:
-        return _loaded
+def _code_for(path):
+    st = os.stat(path)
+    key = (path, st.st_mtime_ns, st.st_size)
+    code = _code_cache.get(key)
+    if code is None:
+        with open(path, "rb") as f:
+            code = compile(f.read(), path, "exec", dont_inherit=True)
+        _code_cache[key] = code
+    return code
+
+
+def fresh_image():
+    """Re-execute the repository's modules from the current working tree of $VERIF_REPO.
+
+    A simulated process must start with module-level state 'just imported', as a real process does:
+    nothing but SimFS may survive from one invocation to the next.  Source files are compiled once per
+    worker (keyed by path, mtime and size) and their module bodies re-executed here (about 2 ms).
+    """
+    import types
     sys.dont_write_bytecode = True
     repo = os.path.abspath(REPO)
     if not os.path.isdir(os.path.join(repo, "cocoasm")):
@@ -52,29 +91,46 @@ def load_repo():
     if repo not in sys.path:
         sys.path.insert(0, repo)
     for name in list(sys.modules):
-        if name == "cocoasm" or name.startswith("cocoasm."):
-            mod = sys.modules[name]
-            if not getattr(mod, "__file__", "").startswith(repo):
-                del sys.modules[name]
+        if name == "cocoasm" or name.startswith("cocoasm.") or name.startswith("cocosim_cli_"):
+            del sys.modules[name]
     mods = {}
-    for name in ("cocoasm.exceptions", "cocoasm.values", "cocoasm.instruction", "cocoasm.operands",
-                 "cocoasm.statement", "cocoasm.program",
-                 "cocoasm.virtualfiles.coco_file", "cocoasm.virtualfiles.cassette",
-                 "cocoasm.virtualfiles.disk", "cocoasm.virtualfiles.binary",
-                 "cocoasm.virtualfiles.source_file", "cocoasm.virtualfiles.virtual_file",
-                 "cocoasm.virtualfiles.virtual_file_exceptions"):
-        mods[name.split(".")[-1]] = importlib.import_module(name)
-    for cli in ("assembler", "file_util"):
-        spec = importlib.util.spec_from_file_location("cocosim_cli_" + cli, os.path.join(repo, cli + ".py"))
-        mod = importlib.util.module_from_spec(spec)
-        spec.loader.exec_module(mod)
-        mods[cli] = mod
-    for mod in mods.values():
-        f = os.path.abspath(mod.__file__)
-        if not f.startswith(repo + os.sep):
-            raise HarnessError("module %s loaded from %s, not from %s" % (mod.__name__, f, repo))
+    for name, rel, is_pkg in REPO_MODULES:
+        path = os.path.join(repo, rel)
+        if not os.path.exists(path):
+            if is_pkg or name == "cocoasm.operand_type":
+                if is_pkg:
+                    raise HarnessError("missing package file %s" % path)
+                continue
+            raise HarnessError("missing module %s" % path)
+        mod = types.ModuleType(name)
+        mod.__file__ = path
+        if is_pkg:
+            mod.__path__ = [os.path.dirname(path)]
+            mod.__package__ = name
+        else:
+            mod.__package__ = name.rpartition(".")[0]
+        sys.modules[name] = mod
+        exec(_code_for(path), mod.__dict__)
+        parent, _, child = name.rpartition(".")
+        if parent and parent in sys.modules:
+            setattr(sys.modules[parent], child, mod)
+        key = name.split(".")[-1] if name.startswith("cocoasm") else name[len("cocosim_cli_"):]
+        mods[key] = mod
+    # anything the tree imports beyond the list above was loaded by the normal import system: it must still come from repo
+    for name, mod in list(sys.modules.items()):
+        if (name == "cocoasm" or name.startswith("cocoasm.")) and getattr(mod, "__file__", None):
+            if not os.path.abspath(mod.__file__).startswith(repo + os.sep):
+                raise HarnessError("module %s loaded from %s, not from %s" % (name, mod.__file__, repo))
+    _loaded.clear()
     _loaded.update(mods)
     _loaded["__repo__"] = repo
+    return _loaded
+
+
+def load_repo():
+    """The current image of the repository's modules (created on first use)."""
+    if not _loaded:
+        fresh_image()
     return _loaded
 
 
@@ -500,7 +556,7 @@ class SimWorld(object):
         self.transcript = []
         self.log = EventLog()
         self.fs = SimFS(self.log)
-        self.mods = load_repo()
+        self.mods = fresh_image()     # this simulated host's first process image
         self.clock = StepClock(self.mods["__repo__"] + os.sep)
         self.invocations = 0
 
@@ -525,6 +581,7 @@ class SimWorld(object):
 
     def invoke(self, cli, argv, budget=None):
         """One CLI process: real parse_arguments() + main() on SimFS.  Nothing but SimFS survives."""
+        self.mods = fresh_image()     # a new process: module-level state is 'just imported'
         mod = self.mods[cli]
         res = ProcResult()
         mark = self.log.mark()
